@@ -111,28 +111,20 @@ Qed.
 End Reach.
 
 (* ---------- the theorem ---------- *)
-Theorem moral_criterion_fwd g X Y Z :
-  ancestral_und g -> incl X (V g) -> incl Y (V g) -> incl Z (V g) ->
+(* general form: any anterior-closed node set S that contains X, Y and Z *)
+Theorem vertex_cut_msep g S X Y Z :
+  ancestral_und g -> ant_closed g S -> incl X (V g) -> incl X S -> incl Y S -> incl Z S ->
   disjointb X Z = true -> disjointb Y Z = true ->
-  moral_sep g X Y Z = true -> msep g X Y Z.
+  vertex_cut (restrict g S) X Y Z = true -> msep g X Y Z.
 Proof.
-  intros Hanc HX HY HZ HXZ HYZ Hsep x y p Hx Hy Hc.
+  intros Hanc Hcl HX HXS HYS HZS HXZ HYZ Hsep x y p Hx Hy Hc.
   rewrite disjointb_spec in HXZ, HYZ.
-  set (s := X ++ Y ++ Z) in *.
-  assert (Hs : incl s (V g)).
-  { intros a Ha. unfold s in Ha. apply in_app_or in Ha. destruct Ha as [Ha|Ha]; [auto|].
-    apply in_app_or in Ha. destruct Ha; auto. }
-  set (S := ant_of g s).
-  assert (HsS : incl s S) by (apply ant_of_init; exact Hs).
-  assert (HxS : In x S) by (apply HsS; unfold s; apply in_or_app; left; exact Hx).
-  assert (HyS : In y S) by (apply HsS; unfold s; apply in_or_app; right; apply in_or_app; left; exact Hy).
-  assert (HZS : incl Z S) by (intros a Ha; apply HsS; unfold s; apply in_or_app; right; apply in_or_app; right; exact Ha).
-  pose proof (mconn_restrict g S Z Hanc (ant_of_closed g s Hs) HZS x p y (HX x Hx) HxS HyS Hc) as Hc'.
+  pose proof (mconn_restrict g S Z Hanc Hcl HZS x p y (HX x Hx) (HXS x Hx) (HYS y Hy) Hc) as Hc'.
   destruct Hc' as [Hne [Hst [Hnd [Hl Hop]]]].
-  unfold moral_sep, ant_graph, vertex_cut in Hsep. fold s in Hsep. fold S in Hsep.
+  unfold vertex_cut in Hsep.
   set (G := restrict g S) in *.
   assert (HXG : incl X (V G)).
-  { intros a Ha. apply V_restrict. split; [apply HX; exact Ha|apply HsS; unfold s; apply in_or_app; left; exact Ha]. }
+  { intros a Ha. apply V_restrict. split; [apply HX; exact Ha|apply HXS; exact Ha]. }
   assert (HxG : In x (V G)) by (apply HXG; exact Hx).
   assert (Hx0 : In x (cut_reach (V G) (moral_edges G) X Z)).
   { apply (cut_reach_spec G X Z HXG). constructor. apply diffb_In. split; [exact Hx|apply HXZ; exact Hx]. }
@@ -143,4 +135,21 @@ Proof.
   assert (E : existsb (fun y0 => memb y0 (cut_reach (V G) (moral_edges G) X Z)) Y = true).
   { apply existsb_exists. exists y. split; [exact Hy|apply memb_In; exact Hy0]. }
   congruence.
+Qed.
+
+Theorem moral_criterion_fwd g X Y Z :
+  ancestral_und g -> incl X (V g) -> incl Y (V g) -> incl Z (V g) ->
+  disjointb X Z = true -> disjointb Y Z = true ->
+  moral_sep g X Y Z = true -> msep g X Y Z.
+Proof.
+  intros Hanc HX HY HZ HXZ HYZ Hsep.
+  set (s := X ++ Y ++ Z) in *.
+  assert (Hs : incl s (V g)).
+  { intros a Ha. unfold s in Ha. apply in_app_or in Ha. destruct Ha as [Ha|Ha]; [auto|].
+    apply in_app_or in Ha. destruct Ha; auto. }
+  assert (HsS : incl s (ant_of g s)) by (apply ant_of_init; exact Hs).
+  apply (vertex_cut_msep g (ant_of g s) X Y Z Hanc (ant_of_closed g s Hs) HX); try assumption.
+  - intros a Ha. apply HsS. unfold s. apply in_or_app. left. exact Ha.
+  - intros a Ha. apply HsS. unfold s. apply in_or_app. right. apply in_or_app. left. exact Ha.
+  - intros a Ha. apply HsS. unfold s. apply in_or_app. right. apply in_or_app. right. exact Ha.
 Qed.
